@@ -1446,6 +1446,10 @@ pub fn gen_metric(rng: &mut Rng, info: &Info) -> Value {
     3 => {
       let f = *rng.pick(&["k1", "k2", "n1", "n2", "x1", "x2"]);
       let mut c = json!({"type": "cardinality", "field": f});
+      if rng.chance(0.3) {
+        // far above the number of distinct values of any corpus field: the count stays exact
+        c["precision_threshold"] = json!(*rng.pick(&[1000usize, 3000, 40_000]));
+      }
       if rng.chance(0.25) {
         c["missing"] = match field_kind(f) {
           FK::Kw => json!(MISSING_KW),
@@ -1556,6 +1560,11 @@ pub fn gen_node(rng: &mut Rng, depth_left: usize, info: &Info) -> Value {
           r.insert("key".into(), json!(format!("r{i}")));
         }
         ranges.push(Value::Object(r));
+      }
+      if !info.clean && rng.chance(0.04) {
+        // two ranges that report the same bucket key
+        let r = ranges[rng.usize(ranges.len())].clone();
+        ranges.push(r);
       }
       let mut t = json!({"type": "range", "field": *rng.pick(NUM_FIELDS), "keyed": rng.chance(0.3), "ranges": ranges});
       if rng.chance(0.25) {
